@@ -128,7 +128,7 @@ pub fn frame(rec: &mut Vec<u8>, marks: &[Mark], rng: &mut Rng, prefer_nested: bo
         Role::Version | Role::Position | Role::OptTag | Role::ResTag | Role::ItemFlag | Role::TypeTag => {
             vec![nv as u8]
         }
-        Role::BytesLen | Role::CtorIdx => enc_var_u32(nv as u32),
+        Role::BytesLen | Role::CtorIdx | Role::RefId => enc_var_u32(nv as u32),
         _ => enc_var_i32(nv as i32),
     };
     if bytes[..] == rec[m.off..m.off + m.len] {
